@@ -647,7 +647,7 @@ func ruleDecryptAuth(c *Ctx, r *Report) {
 	for _, in := range []inst{
 		{"(*pkg/crypto/ciphersuite.aead).decrypt", func(n string) bool { return n == "iface:crypto/cipher.AEAD.Open" }, "AEAD Open"},
 		{"(*pkg/crypto/ciphersuite.ChaCha20Poly1305).Decrypt", func(n string) bool { return n == "iface:crypto/cipher.AEAD.Open" }, "AEAD Open"},
-		{"(*pkg/crypto/ciphersuite.CBC).Decrypt", nameIs("crypto/hmac.Equal"), "MAC comparison"},
+		{"(*pkg/crypto/ciphersuite.CBC).Decrypt", nameIs("crypto/hmac.Equal", "crypto/subtle.ConstantTimeCompare", "bytes.Equal"), "MAC comparison"},
 	} {
 		fn := c.need(r, rule, in.fn)
 		if fn == nil {
